@@ -567,6 +567,31 @@ def c06(M, ctx):
                         continue
                     placed = A["cplaced"][ci]
                     if placed is None:
+                        # not placed anywhere: the task waits avoidably if some workplace assigned to it had room for the component
+                        # (as the code counts space: every listed component) and a free eligible pair *both* before and after the
+                        # allocation pass - nobody else took them, so the component should have been placed.  (Room that only
+                        # appears during the pass, because a later task moved its component away, is the single-pass greedy
+                        # order of the allocator and not claimed.)
+                        if A["tstate"][i] != READY or U["tstate"][i] != READY or comp_parents(M, ci) or M.spec["comps"][ci].get("children"):
+                            continue
+                        if U["wstate"][w] != W_FREE:
+                            continue
+                        for pi in range(len(M.wps)):
+                            if i not in M.spec["wps"][pi].get("targets", []):
+                                continue  # only workplaces assigned to the task
+                            room = True
+                            for S_ in (U, A):
+                                used = 0
+                                for cj in S_["wpplaced"][pi]:
+                                    used = used + M.comps[cj].space_size
+                                if not M.wps[pi].max_space_size - used > M.comps[ci].space_size - 1e-8:
+                                    room = False
+                            if not room:
+                                continue
+                            for f in range(len(M.facs)):
+                                if (M.fwp[f] == pi and A["fstate"][f] == W_FREE and U["fstate"][f] == W_FREE and not A["fassign"][f]
+                                        and eligible_facility(M, f, i) and can_operate(M, w, f) and can_accept_pair(M, A, i, w, f)):
+                                    ctx.fail("C06:eligible-pair-idle-component-not-placed")
                         continue
                     for f in range(len(M.facs)):
                         if M.fwp[f] != placed or A["fstate"][f] != W_FREE:
@@ -888,7 +913,53 @@ def rule_key(M, rule, U, i, t):
     return 0  # LWRPT / SWRPT: one workflow, the same key for every task
 
 
+def worker_rule_key(M, wrule, w, ti, target_wp):
+    """Documented key of worker w under the task's worker rule (smaller = served first)."""
+    mwid = M.workers[w].main_workplace_id
+    tgt = None if target_wp is None else M.wps[target_wp].ID
+    mw = (1 if mwid != tgt else 0, 1 if mwid is not None else 0)
+    ssum = sum(M.workers[w].workamount_skill_mean_map.values())
+    if wrule == -1:
+        return mw + (ssum,)
+    if wrule == 0:
+        return (ssum,) + mw
+    if wrule == 1:
+        return (M.workers[w].cost_per_time,) + mw
+    return (-wskill(M, w, ti),) + mw
+
+
+def c11_workers(M, ctx):
+    """Facility tasks: a worker newly paired in this step is not outranked (task's worker rule, target = the workplace where the
+    component is placed) by a worker who stayed FREE although he was eligible for the same pair."""
+    for st in full_steps(M):
+        if not st["working"]:
+            continue
+        U, A = st["updated"], st["allocated"]
+        for i in range(len(M.tasks)):
+            ts = tspec(M, i)
+            if not ts.get("nf") or ts.get("comp") is None:
+                continue
+            wrule = ts.get("wrule")
+            if wrule is None:
+                wrule = -1  # BaseTask's default worker rule is MW
+            placed = A["cplaced"][ts["comp"]]
+            new_pairs = [(w, f) for w, f in zip(A["talloc_w"][i], A["talloc_f"][i]) if w not in U["talloc_w"][i]]
+            for (w, f) in new_pairs:
+                for w2 in range(len(M.workers)):
+                    if w2 == w or A["wstate"][w2] != W_FREE or U["wstate"][w2] != W_FREE:
+                        continue
+                    if not (eligible_worker(M, w2, i) and can_operate(M, w2, f)):
+                        continue
+                    if M.wspec[w2].get("solo") or M.wspec[w].get("solo"):
+                        continue
+                    ctx.cover("c11:worker-choice")
+                    if worker_rule_key(M, wrule, w2, i, placed) < worker_rule_key(M, wrule, w, i, placed):
+                        ctx.fail("C11:allocation-inverts-worker-priority")
+                        ctx.notes.setdefault("worker_inversion", "step %d task %d: worker %d paired with facility %d although free worker %d ranks higher under worker rule %s" % (st["t"], i, w, f, w2, wrule))
+
+
 def c11(M, ctx):
+    c11_workers(M, ctx)
     rule = M.run["rule"]
     n = len(M.tasks)
     for st in full_steps(M):
